@@ -899,16 +899,23 @@ static int pick_next(int prev, bool prev_finished)
     }
     case ST_REPLAY:
     {
-        replay_skip_stale(nullptr);
-        if (g_rp_next < g_cfg.replay.size())
+        // the entry of the member that just finished / blocked comes first (it must not be mistaken for a
+        // stale entry of a finished member); only then are stale entries dropped
+        for (int pass = 0; pass < 2; pass++)
         {
-            const Switch s = g_cfg.replay[g_rp_next];
-            if (s.region == g_region_idx && s.member == prev)
+            if (g_rp_next < g_cfg.replay.size())
             {
-                g_rp_next++;
-                if (s.next >= 0 && s.next < g_T && runnable(g_members[s.next]))
-                    return s.next;
+                const Switch s = g_cfg.replay[g_rp_next];
+                if (s.region == g_region_idx && s.member == prev)
+                {
+                    g_rp_next++;
+                    if (s.next >= 0 && s.next < g_T && runnable(g_members[s.next]))
+                        return s.next;
+                    break;
+                }
             }
+            if (pass == 0)
+                replay_skip_stale(nullptr);
         }
         return cand[0];
     }
@@ -932,7 +939,9 @@ static void prepare_fiber(Member *m)
     memset((char *)top - 16384, g_cfg.dirty_heap ? (int)(0x80 | (g_cfg.garbage_seed & 0x7f)) : 0, 16384);
 #endif
     uint64_t *sp = (uint64_t *)top;
-    *--sp = 0;                                    // padding: after `ret` rsp % 16 == 8, as after a call
+    // SysV: at function entry rsp % 16 == 8 (a call pushed the return address onto a 16-aligned stack).
+    // top is 16-aligned; the slot at top-8 plays the return address of the trampoline, so after the `ret`
+    // of sim_ctx_switch has popped the trampoline's address, rsp == top-8.
     *--sp = 0;                                    // fake return address of the trampoline (never used)
     *--sp = (uint64_t)(uintptr_t)&member_trampoline; // ret target
     *--sp = 0;                                    // rbp
